@@ -322,7 +322,7 @@ func casePath(info *types.Info, stack []ast.Node) []string {
 			switch sw := stack[i-2].(type) {
 			case *ast.SwitchStmt:
 				if sw.Tag != nil {
-					tag = types.ExprString(sw.Tag)
+					tag = CanonTag(info, sw.Tag)
 				}
 			case *ast.TypeSwitchStmt:
 				tag = "type"
@@ -442,4 +442,40 @@ func (c *Corpus) classify(info *types.Info, t *Template, stack []ast.Node) {
 // Describe renders a short human description.
 func (t *Template) Describe() string {
 	return fmt.Sprintf("%s %s %q", t.Func, strings.Join(t.CasePath, "/"), t.Text)
+}
+
+// CanonTag renders the tag expression of a switch with its root identifier replaced by "_" when that
+// identifier is a local variable or parameter: case paths must not depend on the spelling of local names.
+func CanonTag(info *types.Info, tag ast.Expr) string {
+	root := tag
+	for {
+		switch x := root.(type) {
+		case *ast.SelectorExpr:
+			root = x.X
+			continue
+		case *ast.CallExpr:
+			root = x.Fun
+			continue
+		case *ast.ParenExpr:
+			root = x.X
+			continue
+		case *ast.IndexExpr:
+			root = x.X
+			continue
+		}
+		break
+	}
+	s := types.ExprString(tag)
+	id, ok := root.(*ast.Ident)
+	if !ok {
+		return s
+	}
+	v, isVar := info.ObjectOf(id).(*types.Var)
+	if !isVar || v.IsField() || v.Parent() == nil || (v.Pkg() != nil && v.Parent() == v.Pkg().Scope()) {
+		return s
+	}
+	if strings.HasPrefix(s, id.Name) {
+		return "_" + s[len(id.Name):]
+	}
+	return s
 }
